@@ -118,10 +118,10 @@ theorem updnoc_accept_iff (cfg : Cfg) (n : Node) (sid s node ser : Nat) (mode : 
           by_cases h2 : a.flags.updCsr <;> by_cases h3 : a.flags.root <;> by_cases h4 : a.flags.addNoc <;>
             by_cases h5 : a.flags.addCsr <;> by_cases h6 : a.flags.updNoc <;> simp_all [ok, Status.accepted]
     · simp_all [ok, Status.accepted]
-theorem addnoc_accept_iff (cfg : Cfg) (n : Node) (sid s ca fid node subj ser : Nat) (mode : Mode) :
-    (sessOp cfg n sid mode (.addnoc s ca fid node subj ser)).2.accepted = true ↔
+theorem addNoc_accept_iff (cfg : Cfg) (n : Node) (sid ca fid node subj ser : Nat) (mode : Mode) :
+    (addNoc cfg n sid mode ca fid node subj ser).2.accepted = true ↔
       specAddNoc cfg n mode ca fid subj = true := by
-  unfold sessOp specAddNoc inContext flagsOf deferredOf checkArmed checkState freeIdx
+  unfold addNoc specAddNoc inContext flagsOf deferredOf checkArmed checkState freeIdx
   cases hfs : n.fs with
   | none => simp [Status.accepted]
   | some a =>
@@ -135,6 +135,41 @@ theorem addnoc_accept_iff (cfg : Cfg) (n : Node) (sid s ca fid node subj ser : N
       all_goals simp_all [Status.accepted]
       all_goals grind
 
+/-- the retry of a failed resumption-cache store touches nothing the gating looks at -/
+theorem retryResum_same (n : Node) :
+    (retryResum n).1.fs = n.fs ∧ (retryResum n).1.staged = n.staged ∧ (retryResum n).1.fabrics = n.fabrics := by
+  have hk : (kvTick n).1.fs = n.fs ∧ (kvTick n).1.staged = n.staged ∧ (kvTick n).1.fabrics = n.fabrics := by
+    unfold kvTick; split <;> (try split) <;> exact ⟨rfl, rfl, rfl⟩
+  unfold retryResum
+  split
+  · unfold storeResum
+    rcases ht : kvTick n with ⟨n1, bad⟩
+    rw [ht] at hk
+    cases bad <;> exact hk
+  · exact ⟨rfl, rfl, rfl⟩
+
+theorem specAddNoc_congr (cfg : Cfg) (n n' : Node) (mode : Mode) (ca fid subj : Nat)
+    (h1 : n'.fs = n.fs) (h2 : n'.staged = n.staged) (h3 : n'.fabrics = n.fabrics) :
+    specAddNoc cfg n' mode ca fid subj = specAddNoc cfg n mode ca fid subj := by
+  unfold specAddNoc inContext flagsOf deferredOf freeIdx hasFabric
+  rw [h1, h2, h3]
+
+/-- AddNOC is accepted exactly when the spec table holds - and the retry of a resumption-cache store
+that had failed (the first thing the command does) does not fail again -/
+theorem addnoc_accept_iff (cfg : Cfg) (n : Node) (sid s ca fid node subj ser : Nat) (mode : Mode) :
+    (sessOp cfg n sid mode (.addnoc s ca fid node subj ser)).2.accepted = true ↔
+      ((retryResum n).2 = true ∧ specAddNoc cfg n mode ca fid subj = true) := by
+  have ⟨h1, h2, h3⟩ := retryResum_same n
+  simp only [sessOp]
+  rcases hr : retryResum n with ⟨n1, b⟩
+  rw [hr] at h1 h2 h3
+  simp only at h1 h2 h3
+  cases b with
+  | false => simp [Status.accepted]
+  | true =>
+    simp only [true_and]
+    rw [addNoc_accept_iff, specAddNoc_congr cfg n n1 mode ca fid subj h1 h2 h3]
+
 /-! ## gating corollaries -/
 
 /-- a credential command is accepted only from the session context the fail-safe is bound to -/
@@ -147,7 +182,7 @@ theorem only_failsafe_context (cfg : Cfg) (n : Node) (sid : Nat) (mode : Mode) (
     simp only [specCsr, Bool.and_eq_true] at this; exact this.1.1
   · have := (root_accept_iff cfg n sid s c mode).mp hacc
     simp only [specRoot, Bool.and_eq_true] at this; exact this.1
-  · have := (addnoc_accept_iff cfg n sid s c f nd a r mode).mp hacc
+  · have := ((addnoc_accept_iff cfg n sid s c f nd a r mode).mp hacc).2
     simp only [specAddNoc, Bool.and_eq_true] at this; exact this.1.1.1.1.1.1.1.1.1
   · have := (updnoc_accept_iff cfg n sid s nd r mode).mp hacc
     simp only [specUpdNoc, Bool.and_eq_true] at this; exact this.1.1.1.1
@@ -287,6 +322,23 @@ theorem commit_is_joint (cfg : Cfg) (ops : List Op) (hno : Op.freset ∉ ops) (s
   have ⟨h3, h4, h5⟩ := h2 hack
   exact ⟨h1, h3, h4, h5, h1.2.1 h3⟩
 
+theorem removeFabricKey_window (n : Node) (idx : Nat) : (removeFabricKey n idx).1.window = n.window := by
+  have hk : (kvTick n).1.window = n.window := by unfold kvTick; split <;> (try split) <;> rfl
+  unfold removeFabricKey
+  rcases ht : kvTick n with ⟨n1, bad⟩
+  rw [ht] at hk
+  cases bad with
+  | true => exact hk
+  | false =>
+    simp only [Bool.false_eq_true, if_false]
+    split <;> exact hk
+
+theorem undoAdded_window (n : Node) (idx : Nat) : (undoAdded n idx).window = n.window := by
+  unfold undoAdded
+  split
+  · exact removeFabricKey_window n idx
+  · rfl
+
 /-- a CommissioningComplete that is NOT acknowledged (wrong context, store failure at either write)
 leaves the fail-safe exactly as it was - armed: it rolls back at the expiry or can be retried
 (fixed finding `C08-complete-not-atomic`) -/
@@ -331,7 +383,14 @@ theorem complete_ok_or_unchanged (cfg : Cfg) (n : Node) (sid s : Nat) (mode : Mo
           rw [hr2] at hfr2 hw2
           simp only at hfr2 hw2
           cases b2 with
-          | false => exact Or.inr ⟨hfr2.fs.trans hfr1.fs, hfr2.sessions.trans hfr1.sessions, hw2.trans hw1⟩
+          | false =>
+            refine Or.inr ?_
+            simp only []
+            have hu := undoAdded_frame { n2 with managed := n1.managed } f.idx
+            have hwu : (undoAdded { n2 with managed := n1.managed } f.idx).window = n2.window :=
+              undoAdded_window _ f.idx
+            exact ⟨hu.fs.trans (hfr2.fs.trans hfr1.fs), hu.sessions.trans (hfr2.sessions.trans hfr1.sessions),
+              hwu.trans (hw2.trans hw1)⟩
           | true => exact Or.inl rfl
 
 theorem failed_complete_stays_armed (cfg : Cfg) (n : Node) (sid s : Nat) (mode : Mode)
@@ -342,22 +401,41 @@ theorem failed_complete_stays_armed (cfg : Cfg) (n : Node) (sid s : Nat) (mode :
   (complete_ok_or_unchanged cfg n sid s mode).resolve_left hfail
 
 /-- the commands of the commissioning in progress never write to the store: CSRRequest,
-AddTrustedRootCertificate, AddNOC, UpdateNOC, network changes and (re-)arming leave every key alone
+AddTrustedRootCertificate, UpdateNOC, network changes and (re-)arming leave every key alone
 (what they change lives in memory until CommissioningComplete) -/
 theorem commissioning_ops_keep_store (cfg : Cfg) (n : Node) (sid : Nat) (mode : Mode) (op : Op)
     (hop : (∃ s u, op = .csr s u) ∨ (∃ s c, op = .root s c) ∨
-           (∃ s c f nd a r, op = .addnoc s c f nd a r) ∨ (∃ s nd r, op = .updnoc s nd r) ∨
+           (∃ s nd r, op = .updnoc s nd r) ∨
            (∃ s v, op = .net s v) ∨ (∃ s v, op = .rmnet s v) ∨ (∃ s t, op = .arm s t ∧ t ≠ 0)) :
     (sessOp cfg n sid mode op).1.kv = n.kv ∧ (sessOp cfg n sid mode op).1.hist = n.hist := by
   refine sessOp_store_untouched cfg n sid mode op ?_
-  rcases hop with h | h | h | h | h | h | h
+  rcases hop with h | h | h | h | h | h
   · exact Or.inl h
   · exact Or.inr (Or.inl h)
   · exact Or.inr (Or.inr (Or.inl h))
   · exact Or.inr (Or.inr (Or.inr (Or.inl h)))
   · exact Or.inr (Or.inr (Or.inr (Or.inr (Or.inl h))))
   · exact Or.inr (Or.inr (Or.inr (Or.inr (Or.inr (Or.inl h)))))
-  · exact Or.inr (Or.inr (Or.inr (Or.inr (Or.inr (Or.inr (Or.inl h))))))
+
+/-- ... and AddNOC writes no fabric key and no networks key: the only key it may write is the
+resumption cache (the retry of a store that had failed) -/
+theorem addnoc_keeps_committed_keys (cfg : Cfg) (n : Node) (sid s ca fid node subj ser : Nat) (mode : Mode) :
+    (sessOp cfg n sid mode (.addnoc s ca fid node subj ser)).1.kv.fabs = n.kv.fabs ∧
+    (sessOp cfg n sid mode (.addnoc s ca fid node subj ser)).1.kv.nets = n.kv.nets := by
+  simp only [sessOp]
+  rcases retryResum_cases n with hr | hr
+  · rw [hr]
+    have := (addNoc_store_untouched cfg n sid mode ca fid node subj ser).1
+    simp only [this]; exact ⟨triv, triv⟩
+  · rw [hr]
+    have ⟨_, hf, hn, _⟩ := storeResum_spec n
+    rcases hst : storeResum n with ⟨n1, b⟩
+    rw [hst] at hf hn
+    cases b with
+    | false => exact ⟨hf, hn⟩
+    | true =>
+      have := (addNoc_store_untouched cfg n1 sid mode ca fid node subj ser).1
+      simp only [this]; exact ⟨hf, hn⟩
 
 /-- an ACL write of the fabric the fail-safe is armed for is deferred: the store is not touched, and
 the fail-safe context remembers it -/
@@ -394,7 +472,7 @@ theorem addnoc_refused_while_deferred (cfg : Cfg) (n : Node) (sid s ca fid node 
   cases hacc : (sessOp cfg n sid mode (.addnoc s ca fid node subj ser)).2.accepted with
   | false => rfl
   | true =>
-    have := (addnoc_accept_iff cfg n sid s ca fid node subj ser mode).mp hacc
+    have := ((addnoc_accept_iff cfg n sid s ca fid node subj ser mode).mp hacc).2
     simp only [specAddNoc, Bool.and_eq_true, Bool.not_eq_true', Bool.and_eq_false_iff] at this
     rcases this.1.2 with h | h
     · simp [hfab] at h
@@ -506,17 +584,48 @@ def C08_full_rollback : Prop :=
     ∀ i, i ≠ 0 → getFabric (expireAndPurge cfg (run cfg (run cfg {} ops0) ops1) a exp).1 i =
                   getFabric (run cfg {} ops0) i
 
-/-- FALSE of the code (open finding `C08-complete-partial-commit`): CommissioningComplete writes the
-fabric, then the networks; when the SECOND write fails the command is answered with an error and the
-fail-safe stays armed, but the fabric record is in the store - the expiry then "restores" it. -/
+/-- FALSE of the code (open finding `C08-complete-partial-commit`, the half that is left):
+CommissioningComplete writes the fabric, then the networks; when the SECOND write fails the command
+is answered with an error and the fail-safe stays armed. For a fabric ADDED under the fail-safe the
+record is removed again (`failed_complete_added_fabric_rolls_back`); for a fabric that EXISTED before
+(UpdateNOC, deferred writes) the store holds only the new record - the old one is gone, nothing can be
+put back, and the expiry "restores" the uncommitted identity. -/
 theorem C08_full_rollback_false : ¬ C08_full_rollback := by
   intro h
-  have := h {} [] [.boot, .pase, .arm 0 60, .csr 0 false, .root 0 1, .addnoc 0 1 5 10 100 1,
-    .caseEst 1 100 1, .kvfail 2, .complete 1]
-    { fab := 1, flags := { addCsr := true, root := true, addNoc := true }, timeout := 60, armedAt := 0 } none
+  have := h {} [.boot, .pase, .arm 0 60, .csr 0 false, .root 0 1, .addnoc 0 1 5 10 100 1,
+    .caseEst 1 100 1, .complete 1] [.arm 1 60, .net 1 3, .csr 1 true, .updnoc 1 11 2, .kvfail 2, .complete 1]
+    { fab := 1, flags := { updCsr := true, updNoc := true }, timeout := 60, armedAt := 0 } none
     (by decide) (by decide) (by decide) (by decide) (by decide) (by decide) (by decide) (by decide) 1 (by decide)
   revert this
   decide
+
+/-- **the repaired half** (`C08-complete-partial-commit` for the commissioning of a NEW fabric): after
+any history, a CommissioningComplete of a fabric added under the fail-safe that is not acknowledged -
+whichever write fails - leaves the fabric records and the networks in the store exactly as they were;
+the fail-safe stays armed (`failed_complete_stays_armed`), so the expiry rolls the commissioning back
+(`rollback_restores`) and a restart comes up without it. -/
+theorem failed_complete_added_fabric_rolls_back (cfg : Cfg) (n : Node) (sid s : Nat) (mode : Mode) (a : Armed)
+    (hfs : n.fs = some a) (hadd : a.flags.addNoc = true) (hnone : kvF n.kv mode.fab = none)
+    (hfail : (sessOp cfg n sid mode (.complete s)).2 ≠ .ok) :
+    (∀ i, kvF (sessOp cfg n sid mode (.complete s)).1.kv i = kvF n.kv i) ∧
+    (sessOp cfg n sid mode (.complete s)).1.kv.nets = n.kv.nets ∧
+    (sessOp cfg n sid mode (.complete s)).1.fs = n.fs :=
+  ⟨(failed_complete_of_added_fabric_undone cfg n sid s mode a hfs hadd hnone hfail).1,
+   (failed_complete_of_added_fabric_undone cfg n sid s mode a hfs hadd hnone hfail).2,
+   (failed_complete_stays_armed cfg n sid s mode hfail).1⟩
+
+/-- the hypotheses are met by the replay of the repaired finding: second write of the
+CommissioningComplete of a new fabric fails; afterwards the store holds no fabric, and the expiry
+leaves none in the node -/
+example :
+    let n := run {} {} [.boot, .pase, .arm 0 60, .net 0 3, .csr 0 false, .root 0 2, .addnoc 0 2 2 10 100 1,
+      .caseEst 1 101 1, .kvfail 2]
+    (∃ a, n.fs = some a ∧ a.flags.addNoc = true) ∧ kvF n.kv 1 = none ∧
+    (sessOp {} n 1 (.case 1) (.complete 1)).2 = .err "NoSpace" ∧
+    (sessOp {} n 1 (.case 1) (.complete 1)).1.kv.fabs = [] ∧
+    (sessOp {} n 1 (.case 1) (.complete 1)).1.hist.length = 2 ∧
+    (run {} (sessOp {} n 1 (.case 1) (.complete 1)).1 [.tick 61, .poll]).fabrics = [] := by
+  refine ⟨⟨_, rfl, by decide⟩, by decide, by decide, by decide, by decide, by decide⟩
 
 /-! ## RevokeCommissioning / OpenCommissioningWindow and the fail-safe -/
 
